@@ -9,6 +9,7 @@ import Compass.Drv.C16
 import Compass.Drv.C08
 import Compass.Drv.C14
 import Compass.Drv.C17
+import Compass.Drv.C06
 
 /-- `driver <prop>`: reads one case per line on stdin, prints the model's canonical output line -/
 partial def loop (h : IO.FS.Stream) (out : IO.FS.Stream) (f : String → String) : IO Unit := do
@@ -38,6 +39,8 @@ def dispatch : String → Option (String → String)
   | "C08" => some Compass.Drv.C08.run
   | "C14" => some Compass.Drv.C14.run
   | "C17" => some Compass.Drv.C17.run
+  | "C06" => some Compass.Drv.C06.run
+  | "C12" => some Compass.Drv.C06.run
   | _ => none
 
 def main (args : List String) : IO UInt32 := do
